@@ -7,6 +7,7 @@ package main
 import (
 	"bytes"
 	"context"
+	"errors"
 	"fmt"
 	"io"
 	"math/rand"
@@ -49,6 +50,8 @@ type Case struct {
 	AckStyle       string
 	MaxAccept      int
 	MonoKeep       int
+	SrcFail        string // "" | unexpected-eof | other: the caller's stream fails with that error after SrcFailAt bytes
+	SrcFailAt      int
 	monoKeepWanted bool
 	EmptyRange     string
 	Early201       bool
@@ -109,6 +112,35 @@ func (d dribbleSeek) Read(p []byte) (int, error) {
 func (d dribbleSeek) Seek(o int64, w int) (int64, error) { return d.r.Seek(o, w) }
 
 type noSeek struct{ r io.Reader }
+
+// failAfter delivers n bytes of r and then fails with err (not a Seeker: a broken stream cannot be replayed).
+type failAfter struct {
+	r    io.Reader
+	left int
+	err  error
+	hit  atomic.Bool // the error was handed to the reader's user
+}
+
+func (f *failAfter) Read(p []byte) (int, error) {
+	if f.left <= 0 {
+		f.hit.Store(true)
+		return 0, f.err
+	}
+	if len(p) > f.left {
+		p = p[:f.left]
+	}
+	n, err := f.r.Read(p)
+	f.left -= n
+	if err == io.EOF {
+		f.hit.Store(true)
+		return n, f.err
+	}
+	return n, err
+}
+
+// srcFailed is set by runCase when the failing stream really handed its error to the client (a mount may
+// make the client never read the stream).
+var srcFailed sync.Map // case index -> true
 
 // watch monitors how the client uses the caller's stream: an io.Reader may not be used by two
 // goroutines at once, nor after BlobPut returned. A Read that finds the stream at EOF dwells a moment
@@ -237,6 +269,10 @@ func genCase(rng *rand.Rand, i int) Case {
 		c.Fault = []string{"status:500", "status:502", "status:504", "status:429", "reset", "status:408"}[rng.Intn(6)]
 	}
 	c.Dir = rng.Intn(7) == 0
+	if rng.Intn(12) == 0 && c.Len > 0 {
+		c.SrcFail = []string{"unexpected-eof", "unexpected-eof", "other"}[rng.Intn(3)]
+		c.SrcFailAt = rng.Intn(c.Len) // strictly inside the content
+	}
 	if c.monoKeepWanted && c.FaultAt == 0 && !c.Refuse {
 		// the single-request upload dies in the registry after more than one chunk's worth was stored:
 		// the chunked fall-back is told to continue beyond the buffer it holds
@@ -304,6 +340,18 @@ func runCase(c Case) {
 		src = dribbleSeek{bytes.NewReader(content)}
 	}
 	seekable := c.Source == "seek" || c.Source == "dribble-seek"
+	if c.SrcFail != "" {
+		// a stream that breaks: whatever the error is called, the upload must not report success
+		ferr := errors.New("storage medium failed")
+		if c.SrcFail == "unexpected-eof" {
+			ferr = io.ErrUnexpectedEOF
+		}
+		fa := &failAfter{r: src, left: c.SrcFailAt, err: ferr}
+		src = fa
+		seekable = false
+		defer srcFailed.Delete(c.I)
+		srcFailed.Store(c.I, fa)
+	}
 	wsrc := &watch{r: src, dwell: c.I%2 == 0}
 	if seekable {
 		src = watchSeek{wsrc}
@@ -411,6 +459,25 @@ func runCase(c Case) {
 }
 
 func judge(c Case, decl, got descriptor.Descriptor, err error, actual string, content []byte, mismatch, must bool, blob func(string) ([]byte, bool), nreq int, w *modelreg.World) {
+	if c.SrcFail != "" {
+		run.Eval(1)
+		run.Count("uploads_from_failing_streams", 1)
+		hit := false
+		if v, ok := srcFailed.Load(c.I); ok {
+			hit = v.(*failAfter).hit.Load()
+		}
+		if !hit {
+			run.Count("uploads_that_never_read_the_failing_stream", 1)
+		}
+		if err == nil && hit {
+			dst := "registry"
+			if c.Dir {
+				dst = "layout"
+			}
+			run.Violation(fmt.Sprintf("source-error-swallowed/%s/%s/%s", c.SrcFail, c.Decl, dst), fmt.Sprintf("the caller's stream failed after %d of %d bytes (%s) but BlobPut returned success (digest %s, size %d)", c.SrcFailAt, len(content), c.SrcFail, got.Digest, got.Size), map[string]any{"case": c})
+		}
+		return
+	}
 	run.Eval(1)
 	wit := func() map[string]any {
 		m := map[string]any{"case": c, "declared": fmt.Sprintf("%s size %d", decl.Digest, decl.Size), "returned": fmt.Sprintf("%s size %d", got.Digest, got.Size), "actual_digest": actual, "err": fmt.Sprint(err)}
